@@ -1,6 +1,7 @@
 package app
 
 import (
+	"bytes"
 	"encoding/json"
 	"fmt"
 	"io"
@@ -25,6 +26,7 @@ func (s *Server) laURLHandlerFunc(w http.ResponseWriter, r *http.Request) {
 		msg := fmt.Sprintf("URL does not end with %s", laURLSuffix)
 		log.Error(msg)
 		http.Error(w, msg, http.StatusBadRequest)
+		return
 	}
 	// Parse JSON request body which looks like {"kids":["nrQFDeRLSAKTLifXUIPiZg"],"type":"temporary"}
 	// We only care about the kids array.
@@ -54,6 +56,12 @@ func (s *Server) laURLHandlerFunc(w http.ResponseWriter, r *http.Request) {
 			msg := "id16FromBase64 error"
 			log.Error(msg, "err", err)
 			http.Error(w, msg, http.StatusInternalServerError)
+			return
+		}
+		if !bytes.Equal(kid16[:3], kidStart) {
+			msg := "key id was not issued by livesim2"
+			log.Error(msg)
+			http.Error(w, msg, http.StatusBadRequest)
 			return
 		}
 		key := kidToKey(kid16)
